@@ -101,12 +101,58 @@ class Inliner:
         nd = self.f.norm(d)
         return self.idx.get(nd) if nd in self.new else None
 
+    @staticmethod
+    def _inlined_block(e):
+        """(block, rebuild) when `e` is an inlined helper body in statement position -- bare, or under `?` (`helper(..)?`): rebuild(tail)
+        gives the expression that stands for the helper's VALUE once its statements have been hoisted into the enclosing block"""
+        x = e
+        while isinstance(x, dict) and x.get("k") == "DropTemps":
+            x = x["e"]
+        if isinstance(x, dict) and x.get("k") == "Block" and x.get("inlined_from") and x.get("stmts"):
+            return x, (lambda tail: tail)
+        if isinstance(x, dict) and x.get("k") == "Match" and "TryDesugar" in str(x.get("source", "")):
+            sc = x.get("scrut") or {}
+            if sc.get("k") == "Call" and len(sc.get("args") or []) == 1:
+                a = sc["args"][0]
+                if isinstance(a, dict) and a.get("k") == "Block" and a.get("inlined_from") and a.get("stmts"):
+                    def rebuild(tail, x=x, sc=sc, a=a):
+                        t2 = dict(tail) if isinstance(tail, dict) else {"k": "Tup", "elems": [], "line": a.get("line")}
+                        t2["inlined_from"] = a["inlined_from"]
+                        return dict(x, scrut=dict(sc, args=[t2]))
+                    return a, rebuild
+        return None, None
+
+    def hoist(self, blk):
+        """`helper(..)?;` / `let x = helper(..)?;` / `helper(..);` with the helper inlined: its statements become statements of the enclosing
+        block (an early `return` in them then guards what follows, exactly as it did before the extraction)"""
+        stmts = []
+        for st in blk.get("stmts", []):
+            key = "init" if st.get("k") == "Let" else "expr" if st.get("k") in ("Semi", "Expr") else None
+            b, rebuild = self._inlined_block(st.get(key)) if key and isinstance(st.get(key), dict) else (None, None)
+            if b is None:
+                stmts.append(st)
+                continue
+            stmts += b["stmts"]
+            tail = b.get("expr")
+            if tail is None and st.get("k") != "Let":
+                continue
+            stmts.append(dict(st, **{key: rebuild(tail if tail is not None else {"k": "Tup", "elems": [], "line": b.get("line")})}))
+        out = dict(blk, stmts=stmts)
+        if isinstance(blk.get("expr"), dict):
+            b, rebuild = self._inlined_block(blk["expr"])
+            if b is not None:
+                out["stmts"] = stmts + b["stmts"]
+                out["expr"] = rebuild(b["expr"]) if b.get("expr") is not None else None
+        return out
+
     def expand(self, n, depth, stack, owner):
         if isinstance(n, list):
             return [self.expand(x, depth, stack, owner) for x in n]
         if not isinstance(n, dict):
             return n
         out = {k: self.expand(v, depth, stack, owner) for k, v in n.items()}
+        if out.get("k") == "Block" and self.count:
+            out = self.hoist(out)
         if out.get("k") in ("Call", "MethodCall") and depth < MAXD:
             it = self.callee_item(out)
             if it is not None and it["path"] not in stack:
@@ -209,7 +255,74 @@ def splice(caller, bi, callee):
                      else {"k": "Unreachable", "line": line, "exp": False}),
             "cleanup": False, "inlined": callee["path"]}
     caller["blocks"] += nb + [land]
+    _thread_try(caller, t, lo, bo, len(nb), landing)
     return True
+
+
+def _thread_try(caller, call_t, lo, bo, n_inl, landing):
+    """jump threading for `helper(..)?`: a return of the spliced helper whose value is a literal `Ok(..)` / `Err(..)` continues, after
+    `Try::branch`, on the Continue / Break edge respectively (std: Result's Try impl).  Without this the two outcomes merge in the landing
+    block and a test made inside the helper no longer dominates what follows the `?`.  Pattern in the caller:
+        B: _u = branch(move dest) -> C        C: _d = discriminant(_u); switchInt(_d) [0 -> cont, 1 -> brk]
+    Each such return gets its own copy of landing, B and C, with C's switch replaced by the known edge."""
+    blocks = caller["blocks"]
+    B = call_t.get("target")
+    if type(B) is not int:
+        return
+    bb = blocks[B]
+    tb = bb["term"]
+    if bb["stmts"] or tb["k"] != "Call" or (tb["func"].get("fn") or {}).get("name") != "branch" or len(tb["args"]) != 1:
+        return
+    a0 = tb["args"][0]
+    if a0["k"] not in ("Move", "Copy") or a0["place"]["local"] != call_t["dest"]["local"] or a0["place"]["proj"] or call_t["dest"]["proj"]:
+        return
+    C = tb.get("target")
+    if type(C) is not int:
+        return
+    # only for helpers that return `Result<(), E>` (validation steps: `check(..)?;`): the copies of B would give `_u` several definitions, which
+    # is harmless when its Continue payload is `()` and would blur the value flow of a payload-carrying helper
+    uty = str(caller["locals"][tb["dest"]["local"]]["ty"]).replace(" ", "")
+    inner, depth, commas = uty[uty.find("<") + 1:-1] if "<" in uty else "", 0, 0
+    for ch in inner:
+        depth += ch == "<"
+        depth -= ch == ">"
+        commas += (ch == "," and depth == 0)
+    if not (uty.endswith(",()>") or ("ControlFlow<" in uty and commas == 0)):       # `ControlFlow<B>` is printed without its default `C = ()`
+        return
+    cb = blocks[C]
+    tc = cb["term"]
+    if tc["k"] != "SwitchInt" or len(cb["stmts"]) != 1 or cb["stmts"][0]["k"] != "Assign" or cb["stmts"][0]["rv"]["k"] != "Discriminant" \
+            or cb["stmts"][0]["rv"]["place"]["local"] != tb["dest"]["local"]:
+        return
+    edges = {v: bbi for v, bbi in tc["targets"]}
+    if 0 not in edges or 1 not in edges:
+        return
+    for i in range(bo, bo + n_inl):
+        p = blocks[i]
+        if p["term"]["k"] != "Goto":
+            continue
+        tgt, hops = p["term"]["target"], 0
+        while tgt != landing and hops < 3 and bo <= tgt < bo + n_inl and not blocks[tgt]["stmts"] and blocks[tgt]["term"]["k"] == "Goto":
+            tgt = blocks[tgt]["term"]["target"]
+            hops += 1
+        if tgt != landing:
+            continue
+        variant = None
+        for st in p["stmts"]:
+            if st["k"] == "Assign" and st["place"]["local"] == lo and not st["place"]["proj"]:
+                rv = st["rv"]
+                variant = rv["variant"] if (rv["k"] == "Aggregate" and rv.get("agg") == "Adt" and str(rv.get("adt", "")).endswith("result::Result")) else None
+        if variant not in ("Ok", "Err"):
+            continue
+        n0 = len(blocks)
+        l2 = copy.deepcopy(blocks[landing]); b2 = copy.deepcopy(bb); c2 = copy.deepcopy(cb)
+        l2["term"] = dict(l2["term"], target=n0 + 1)
+        b2["term"] = dict(b2["term"], target=n0 + 2)
+        c2["term"] = {"k": "Goto", "target": edges[0] if variant == "Ok" else edges[1], "line": tc.get("line"), "exp": True}
+        for x in (l2, b2, c2):
+            x["threaded"] = variant
+        blocks += [l2, b2, c2]
+        p["term"] = dict(p["term"], target=n0)
 
 
 def apply_mir(facts, inl):
